@@ -6,7 +6,7 @@ from vlib.core import qlit, qvec, qmat, coqbool, natlist, blist
 
 OBLIGATIONS = dict(
     prop_file='Properties/C01.v',
-    glue=['Glue/CoreGlue.v', 'Glue/EinopsGlue.v'],
+    glue=['Glue/CoreGlue.v', 'Glue/EinopsGlueBase.v', 'Glue/EinopsGlueHeads.v'],
     extra=['Model/CoreCheck.vo'],
     gen_items=['k_cdist', 'g_gumbel_noise', 'o_euclid_collectives', 'o_cosine_collectives', 'o_rpq_eval', 'p_select', 'pr_vq'],
 )
